@@ -544,8 +544,11 @@ def anchored_value_cond(r, child, mode, depth, meaningful=False, jsonable=False)
         anchor = Leaf("value", None, "equal_to", kwargs={"value": child})
     elif c < 85:
         anchor = Leaf("value", None, "is_instance", args=(type(child),) if type(child) in TYPES else (dict, list))
-    else:
+    elif c < 93 or jsonable:
         anchor = Leaf("value", None, "truthy" if child else "falsy")
+    else:
+        # a long membership list (the child - often a container - is not among its members)
+        anchor = Leaf("value", None, "not_in", kwargs={"value": [r.between(-40, 400) if r.coin(70) else text(r) for _ in range(r.choice([33, 40, 65, 129]))]})
     k = r.pct()
     if k < 50 or depth <= 0:
         return anchor
